@@ -139,11 +139,25 @@ def a2(ctx):
 @rule("A3", doc="modify queue drained after pending, with canonical ids")
 def a3(ctx):
     crate = ctx.lib()
-    for did in C.need("drain", C.drain_functions(crate)):
+    pd = set(C.need("pending drain", C.drain_functions(crate)))
+    md = C.need("modify drain (calls N::modify)", C.modify_drain_functions(crate))
+    roots = C.need("rebuild root", C.rebuild_roots(crate))
+    nmods = 0
+
+    def pending_empty_witness(b):
+        wit = []
+        for sb in b.switch_blocks():
+            t = b.blocks[sb]["term"]
+            r = b.role_of_operand(t["discr"])
+            if r[0] == "discr":
+                inner = strip_role(r[1])
+                if isinstance(inner, tuple) and inner[0] == "call" and inner[1] == "next" and role_mentions_field(inner, "pending"):
+                    wit += C.variant_edges(b, sb, 0)
+        return wit
+    for did in md:
         b = crate.bodies[did]
         mods = [c for c in b.calls if c.callee and c.callee.name == "modify" and (c.callee.trait or "").endswith("Analysis")]
-        if not ctx.floor("N::modify call sites in the drain", len(mods), 1):
-            continue
+        nmods += len(mods)
         for c in mods:
             idr = b.role_of_operand(c.args[1])
             ok = role_mentions_call(idr, "find_id") or role_mentions_call(idr, "find_applied_id")
@@ -152,17 +166,21 @@ def a3(ctx):
             src = role_mentions_call(idr, "pop") and role_mentions_field(idr, "modify_queue")
             ctx.check(src, "modify-from-queue:" + C.fkey(b), "the id handed to N::modify comes from modify_queue.pop()",
                       "the id handed to N::modify (%s) does not come from the modify queue" % role_str(idr), where_of(b, c.bb))
-            # after pending: dominated by the pending-empty witness
-            wit = []
-            for sb in b.switch_blocks():
-                t = b.blocks[sb]["term"]
-                r = b.role_of_operand(t["discr"])
-                if r[0] == "discr":
-                    inner = strip_role(r[1])
-                    if isinstance(inner, tuple) and inner[0] == "call" and inner[1] == "next" and role_mentions_field(inner, "pending"):
-                        wit += C.variant_edges(b, sb, 0)
-            ctx.check(bool(wit) and b.dominated_by(c.bb, wit), "modify-after-pending:" + C.fkey(b), "N::modify runs only after the pending loop is empty",
-                      "N::modify can run while EGraph.pending is non-empty (invariants not yet rebuilt)", where_of(b, c.bb))
+            if did in pd:
+                # after pending: dominated by the pending-empty witness in the same function
+                wit = pending_empty_witness(b)
+                ctx.check(bool(wit) and b.dominated_by(c.bb, wit), "modify-after-pending:" + C.fkey(b), "N::modify runs only after the pending loop is empty",
+                          "N::modify can run while EGraph.pending is non-empty (invariants not yet rebuilt)", where_of(b, c.bb))
+        if did not in pd:
+            # the loops were split: every call of the modify drain comes after the pending drain (or its witness) in the caller
+            for caller in crate.fns():
+                for c in C.calls_to(crate, caller, {did}):
+                    if c.body is not caller:
+                        continue
+                    before = pending_empty_witness(caller) + [x.bb for x in C.calls_to(crate, caller, pd) if x.body is caller]
+                    ctx.check(bool(before) and caller.dominated_by(c.bb, before), "modify-after-pending:" + C.fkey(caller), "the modify drain is called only after the pending drain",
+                              "%s calls the modify drain %s on a path where EGraph.pending has not been drained (invariants not yet rebuilt when the hook runs)" % (C.short(caller.id), C.short(did)), where_of(caller, c.bb))
+    ctx.floor("N::modify call sites in the drain", nmods, 1)
     c02.p3(ctx)
 
 
